@@ -42,6 +42,7 @@ ERR_CLASSES = [
     (r"asset not found", "htlc_asset_not_found"),
     (r"is over the supply limit", "htlc_supply_over_limit"),
     (r"asset is currently inactive", "htlc_asset_inactive"),
+    (r"invalid minUnit: ibc/", "token_ibc_minunit"),
 ]
 
 EVERY = T(6, 2)
